@@ -59,6 +59,9 @@ type ContractSet struct {
 	Errors   []string
 }
 
+// extraImports: package path -> import name -> package path, from `//@ import` directives
+var extraImports = map[string]map[string]string{}
+
 var clauseKW = map[string]bool{"let": true, "requires": true, "ensures": true, "invariant": true, "modifies": true,
 	"trusted": true, "pure": true, "inline": true, "opaque": true, "nopanic": true, "decreases": true, "axiom": true, "ownership": true}
 
@@ -118,7 +121,7 @@ func (cs *ContractSet) parseFile(w *World, pkgPath, file string, f *ast.File) {
 		if i := strings.IndexAny(l.s, " \t"); i >= 0 {
 			first, rest = l.s[:i], strings.TrimSpace(l.s[i+1:])
 		}
-		if clauseKW[first] || first == "contract" || first == "spec" || first == "ghost" || first == "impl" {
+		if clauseKW[first] || first == "contract" || first == "spec" || first == "ghost" || first == "impl" || first == "import" {
 			cl = append(cl, lc{first, rest, l.n})
 		} else if len(cl) > 0 {
 			cl[len(cl)-1].rest += " " + l.s
@@ -168,6 +171,23 @@ func (cs *ContractSet) parseFile(w *World, pkgPath, file string, f *ast.File) {
 			} else {
 				cs.errf(file, c.n, "bad ghost decl %q", c.rest)
 			}
+		case "import":
+			// extra import for contract expressions of this package: `//@ import host modules/core/24-host`
+			fs := strings.Fields(c.rest)
+			if len(fs) != 2 {
+				cs.errf(file, c.n, "bad import directive")
+				continue
+			}
+			full := fs[1]
+			for path := range w.ByPath {
+				if shortPkg(path) == fs[1] {
+					full = path
+				}
+			}
+			if extraImports[pkgPath] == nil {
+				extraImports[pkgPath] = map[string]string{}
+			}
+			extraImports[pkgPath][fs[0]] = full
 		case "impl":
 			parts := strings.Split(c.rest, "=")
 			if len(parts) != 2 {
